@@ -1,13 +1,14 @@
 ---- MODULE MCFraming ----
 EXTENDS Framing
 \* kinds: concrete OpenFlow messages of these lengths are built by the adapter for each side
-Lens == [huge |-> 40000, max |-> 65535, h8 |-> 8, e9 |-> 9, c12 |-> 12, m16 |-> 16, f72 |-> 72, f88 |-> 88, p64 |-> 64,
+\* (r80: a features reply with one port / a packet-out; h16: a HELLO with an 8-byte body, which receivers must accept)
+Lens == [r80 |-> 80, h16 |-> 16, huge |-> 40000, max |-> 65535, h8 |-> 8, e9 |-> 9, c12 |-> 12, m16 |-> 16, f72 |-> 72, f88 |-> 88, p64 |-> 64,
          big |-> 1518, b2040 |-> 2040, b2047 |-> 2047, b2048 |-> 2048, b2049 |-> 2049, b2056 |-> 2056]
 SeqsUpTo(S, n) == UNION {[1..k -> S] : k \in 1..n}
 Small == SeqsUpTo({"h8", "e9", "c12"}, 3)
 Small2 == SeqsUpTo({"h8", "e9", "c12"}, 2)
-Medium == {<<"h8", "m16", "e9">>, <<"f72", "h8">>, <<"e9", "f72", "c12">>, <<"p64", "f88">>, <<"m16", "p64", "h8">>}
-MediumQ == {<<"h8", "m16", "e9">>, <<"p64", "f88">>}
+Medium == {<<"h8", "r80", "e9">>, <<"r80", "r80">>, <<"e9", "h16", "c12">>, <<"h16", "h8">>, <<"h8", "m16", "e9">>, <<"f72", "h8">>, <<"e9", "f72", "c12">>, <<"p64", "f88">>, <<"m16", "p64", "h8">>}
+MediumQ == {<<"h8", "r80", "e9">>, <<"e9", "h16", "c12">>, <<"h8", "m16", "e9">>, <<"p64", "f88">>}
 Big == {<<"big", "h8">>, <<"h8", "big", "e9">>, <<"b2040", "h8">>, <<"b2047", "h8">>, <<"b2048", "h8">>,
         <<"b2049", "e9">>, <<"b2056", "c12">>, <<"e9", "b2040", "h8">>, <<"c12", "b2047">>, <<"big", "big">>}
 \* interesting cut offsets for long streams: every message/header boundary +-1 and read-size multiples +-1
